@@ -10,7 +10,10 @@ import random
 import compat  # noqa: F401
 from framework import Prop, canon_json
 
+import os
+
 SRC_BASE, DST_BASE = 1 << 20, 1 << 24
+BYVALUE = os.environ.get("C05_BYVALUE", "") == "1"
 ELT = {8: "i8", 16: "i16", 32: "i32", 64: "i64"}
 
 
@@ -23,6 +26,10 @@ def _q(x):
 def layout_text(lay):
     if lay is None:
         return ""
+    if "other" in lay:
+        r = lay["other"]
+        ds = ", ".join(f"d{i}" for i in range(r))
+        return f", affine_map<({ds}) -> ({ds})>"
     if "tsl" in lay:
         t = lay["tsl"]
         parts = [f"[{', '.join(_q(s[1]) for s in d)}] -> ({', '.join(_q(s[0]) for s in d)})" for d in t["ts"]]
@@ -93,6 +100,16 @@ def interp_block(block, env, rts, calls):
             calls.append(["copy"])
         else:
             raise Unsupported(op.name)
+
+
+def nest_bounds(block, env):
+    """trip counts of the emitted scf.for nest, outermost first (loops of trip count 1 are invisible in the call
+    sequence, so the nest itself is compared too)."""
+    from xdsl.dialects import scf
+    for op in block.ops:
+        if isinstance(op, scf.ForOp):
+            return [env[op.ub]] + nest_bounds(op.body.block, env)
+    return []
 
 
 def moves_of_call(c):
@@ -345,7 +362,7 @@ def gen_case(rng, tier, odd=False):
 
 def gen_special(rng):
     """hand-shaped families: upstream filecheck inputs, equal steps with unit bounds, single-element LCB."""
-    fam = rng.randrange(8)
+    fam = rng.randrange(10)
     bits = rng.choice([8, 32, 64])
     el = bits // 8
 
@@ -393,6 +410,35 @@ def gen_special(rng):
         return {"kind": "copy", "src": ty([n, m], {"strided": [2 * m, 2], "offset": 1}),
                 "dst": ty([n, m], {"strided": [3, 3 * n], "offset": 0}),
                 "rs": rt(SRC_BASE, [n, m], [2 * m, 2], 1), "rd": rt(DST_BASE, [n, m], [3, 3 * n], 0)}
+    if fam == 8:  # D41 family: the same source Stride value at two positions (self-overlapping / broadcast-like
+        # source, equal steps in different dimensions), destination injective
+        n, m = rng.choice([2, 3]), rng.choice([2, 2, 4])
+        if rng.random() < 0.5:
+            n = m
+        s = rng.choice([1, 1, 2])
+        d1 = rng.choice([1, 1, 3])
+        dst_st = [d1, d1 * n * rng.choice([1, 2])] if rng.random() < 0.6 else [m * d1, d1]
+        shape = [n, m] if rng.random() < 0.7 else [None, None]
+        sst = [s, s] if shape[0] is not None or rng.random() < 0.5 else [s, None]
+        return {"kind": "copy", "src": ty(shape, {"strided": sst, "offset": 0}),
+                "dst": ty(shape, {"strided": dst_st, "offset": 0}),
+                "rs": rt(SRC_BASE, [n, m], [s, s]), "rd": rt(DST_BASE, [n, m], dst_st)}
+    if fam == 9:  # identical (source, destination) stride pairs at several positions, some of them block members:
+        # exercises the order of the remaining strides after removal by position (TSL with repeated strides)
+        n = rng.choice([2, 3])
+        k = rng.choice([3, 4])
+        a = rng.choice([1, 2])
+        ts_s = [[[a, n]] for _ in range(k)]
+        ts_d = [[[a, n]] for _ in range(k)]
+        j = rng.randrange(k)
+        ts_d[j] = [[a * rng.choice([1, n, 5]), n]]
+        if rng.random() < 0.5:
+            i = rng.randrange(k)
+            ts_s[i] = [[a * n, n]]
+            ts_d[i] = [[a * n, n]]
+        return {"kind": "copy", "src": ty([n] * k, {"tsl": {"ts": ts_s, "offset": 0}}),
+                "dst": ty([n] * k, {"tsl": {"ts": ts_d, "offset": 0}}),
+                "rs": rt(SRC_BASE, [n] * k), "rd": rt(DST_BASE, [n] * k)}
     # fam 7: tiled dynamic block layout  [?, t] -> (?, t), [?, t] -> (?, 1)  against the default layout
     t = rng.choice([2, 4])
     a, b = t * rng.choice([1, 2, 3]), t * rng.choice([1, 2])
@@ -405,7 +451,7 @@ def gen_special(rng):
 
 def gen_malformed(rng):
     """inputs outside the property's quantifier: the two sides must only agree on the outcome."""
-    fam = rng.randrange(4)
+    fam = rng.randrange(9)
 
     def ty(shape, lay, elt="i32", el=4, isint=True):
         return {"shape": shape, "elt": elt, "el": el, "int": isint, "layout": lay}
@@ -426,6 +472,29 @@ def gen_malformed(rng):
                 "src": ty([None], {"tsl": {"ts": [[[4, 2], [1, None]]], "offset": 0}}),
                 "dst": ty([None], None),
                 "rs": rt(SRC_BASE, [8]), "rd": rt(DST_BASE, [8])}
+    if fam == 4:  # rank 0, default layout: `assert total_size_op is not None` in MatchSimpleCopy
+        return {"kind": "malformed", "src": ty([], None), "dst": ty([], None),
+                "rs": rt(SRC_BASE, []), "rd": rt(DST_BASE, [])}
+    if fam == 5:  # rank 0, strided: `if not strides: return`
+        lay = {"strided": [], "offset": 0}
+        return {"kind": "malformed", "src": ty([], lay), "dst": ty([], lay),
+                "rs": rt(SRC_BASE, []), "rd": rt(DST_BASE, [])}
+    if fam == 6:  # a layout attribute that is neither strided nor TSL: NotImplementedError in extract_strides
+        other = {"other": 2}
+        good = rng.choice([None, {"strided": [4, 1], "offset": 0}, {"tsl": {"ts": [[[4, 2]], [[1, 4]]], "offset": 0}},
+                           other])
+        pair = [ty([2, 4], other), ty([2, 4], good)]
+        if rng.random() < 0.5:
+            pair.reverse()
+        return {"kind": "malformed", "src": pair[0], "dst": pair[1],
+                "rs": rt(SRC_BASE, [2, 4], [4, 1]), "rd": rt(DST_BASE, [2, 4], [4, 1])}
+    if fam == 7:  # index elements: not a FixedBitwidthType, MatchSimpleCopy asserts before looking at the layout
+        lay = rng.choice([None, {"strided": [1], "offset": 0}])
+        return {"kind": "malformed", "src": ty([4], lay, "index", 0, False), "dst": ty([4], lay, "index", 0, False),
+                "rs": rt(SRC_BASE, [4], [1]), "rd": rt(DST_BASE, [4], [1])}
+    if fam == 8:  # float elements, default layout: MatchSimpleCopy lowers them (only TransformDMA wants integers)
+        return {"kind": "malformed", "src": ty([3, 4], None, "f32", 4, False), "dst": ty([3, 4], None, "f32", 4, False),
+                "rs": rt(SRC_BASE, [3, 4]), "rd": rt(DST_BASE, [3, 4])}
     # remaining strides with a dynamic last LCB member: assert lcb[-1].bound is not None
     lay = {"tsl": {"ts": [[[None, 2]], [[1, None]]], "offset": 0}}
     lay2 = {"tsl": {"ts": [[[None, 2]], [[1, None]]], "offset": 0}}
@@ -517,10 +586,11 @@ class C05(Prop):
         a, b = f.body.block.args
         rts = {a: case["rs"], b: case["rd"]}
         calls = []
-        interp_block(f.body.block, {}, rts, calls)
+        env = {}
+        interp_block(f.body.block, env, rts, calls)
         if calls == [["copy"]]:
             return {"unchanged": True}
-        out = {"calls": calls}
+        out = {"calls": calls, "nest": nest_bounds(f.body.block, env)}
         if log:
             out["tS"], out["tD"], out["lcb"] = log[0]
         return out
@@ -531,14 +601,21 @@ class C05(Prop):
 
         def mt(t):
             return {"shape": t["shape"], "el": t["el"], "int": t["int"], "layout": t["layout"]}
+        # C05_BYVALUE=1: model of the code BEFORE fix F21 (LCB membership by Stride value), for an unpatched tree
         return [{"fn": "c05.lower", "args": {"src": mt(case["src"]), "dst": mt(case["dst"]), "rs": case["rs"],
-                                             "rd": case["rd"], "idxs": idxs}}]
+                                             "rd": case["rd"], "idxs": idxs, "byValue": BYVALUE}}]
 
     def _sample_idxs(self, case):
         shape = case["rs"]["shape"]
         if not shape or prod(shape) == 0:
             return []
+        if prod(shape) <= 48:
+            # small boxes: the model's layout-defined address is compared on EVERY index
+            return [list(i) for i in itertools.product(*[range(n) for n in shape])]
         pts = [[0] * len(shape), [n - 1 for n in shape], [n // 2 for n in shape]]
+        for d in range(len(shape)):
+            pts.append([(n - 1 if e == d else 0) for e, n in enumerate(shape)])
+            pts.append([(1 if e == d and n > 1 else 0) for e, n in enumerate(shape)])
         return pts
 
     def model(self, case, answers):
@@ -553,7 +630,7 @@ class C05(Prop):
         p = r["prog"]
         x = p["xfer"]
         calls = [[x[0], s, d] + x[1:] for s, d in p["calls"]]
-        out = {"calls": calls}
+        out = {"calls": calls, "nest": [l[0] for l in p["loops"]]}
         if r["path"] == "transform":
             out["tS"], out["tD"], out["lcb"] = r["tS"], r["tD"], r["lcb"]
             out["_addrs"] = r["addrs"]
@@ -565,15 +642,7 @@ class C05(Prop):
             return None
         m = dict(model_out)
         addrs = m.pop("_addrs", None)
-        entries = m.pop("_entries", None)
-        if entries is not None:
-            # clause ResolutionConsistent of C05_moves_partial (hypothesis about the model's resolve): checked here
-            el = case["src"]["el"]
-            for dim in entries:
-                for (ss, ds, b, sst, dst) in dim:
-                    if ((ss[0] is not None and sst != ss[0] * el) or (ds[0] is not None and dst != ds[0] * el)
-                            or (ss[1] is not None and b != ss[1])):
-                        return f"model entry {[ss, ds, b, sst, dst]} violates ResolutionConsistent" 
+        m.pop("_entries", None)  # ResolutionConsistent is a theorem now (C05.resolution_consistent)
         i = dict(impl_out)
         if "raised" in i:
             i = {"raised": i["raised"]}
@@ -588,6 +657,15 @@ class C05(Prop):
             if m.get("calls"):
                 # model addresses are relative to the pointers after offset application
                 pass
+            for side in ("src", "dst"):
+                # the specification side itself against the real TiledStridedLayoutAttr.get_affine_map (static TSL)
+                lay = case[side]["layout"]
+                if lay and "tsl" in lay and all(s[0] is not None and s[1] is not None for d in lay["tsl"]["ts"] for s in d):
+                    f = fs if side == "src" else fd
+                    for idx in self._sample_idxs(case):
+                        if f(idx) != static_tsl_addr_real(case[side], idx):
+                            return (f"specification address of {side}{idx} = {f(idx)} but get_affine_map says "
+                                    f"{static_tsl_addr_real(case[side], idx)}")
             for idx, (ms, md) in zip(self._sample_idxs(case), addrs):
                 es, ed = el * fs(idx), el * fd(idx)
                 e0s, e0d = el * fs([0] * len(idx)), el * fd([0] * len(idx))
@@ -646,8 +724,8 @@ class C05(Prop):
             fid = "D32"
         elif any(s[0] is None for s in impl_out.get("lcb") or []):
             fid = "D40"
-        elif "tS" in impl_out and not by_value_distinct(impl_out["tS"], shape):
-            fid = "D41"
+        elif BYVALUE and "tS" in impl_out and not by_value_distinct(impl_out["tS"], shape):
+            fid = "D41"  # only when checking an unpatched tree with C05_BYVALUE=1 (finding is fixed by F21)
         return [{"what": "; ".join(problems), "finding": fid}]
 
     def nontrivial(self, case, impl_out):
@@ -665,7 +743,8 @@ class C05(Prop):
         if isinstance(impl_out, dict) and impl_out.get("unchanged"):
             return base + ":unchanged"
         c = impl_out.get("calls") or [["none"]]
-        return base + ":" + c[0][0] + ("+loops" if len(c) > 1 else "")
+        n = len(impl_out.get("nest") or [])
+        return base + ":" + c[0][0] + (f"+{n}loops" if n else "")
 
     def shrink(self, case):
         # smaller run-time extents for dynamic dims; drop offsets
